@@ -252,6 +252,12 @@ func c11Mutation(c *Ctx) {
 			c.Case(idx, func(k *K) {
 				r := k.Rand()
 				x := nearValid(r, f)
+				if f != "ncbi" && k.Idx%97 == 0 {
+					x = wellFormedLong(r, f)
+					if r.IntN(2) == 0 {
+						x = mutate(r, x, nil)
+					}
+				}
 				k.Input("format", f)
 				k.Input("input", func() string { return describeText(x) })
 				before := k.c.Rep.Counters["error_items"] + k.c.Rep.Counters["accepted_"+f]
